@@ -59,6 +59,12 @@ CHECKS.update({
    text="Resume.tla states the design (load, replay deliver/save, go live, live deliver/save, crash anywhere) and TLC checks in-order / once / only-unsaved-redelivered / saved-monotone / no-loss over all interleavings with a publisher; the as-is variants reproduce the listed finding D11 and the fixed defect D10 as counterexamples. The code is bound by recording every store operation (with the log position its offset denotes) and every delivery of random histories - crashes are injected by ending the calling goroutine inside the store wrapper after a chosen store operation - and validating them against the property automaton ResumeTrace.tla.",
    note="Trusted: TLC, the store wrapper (offset -> position table built from Append results; runtime.Goexit as crash: durable state only changes inside store operations, so crash points between store operations are covered), memory and SQLite stores as both event and subscription store. Publishers are sequential (deliveries of concurrent publishers are not ordered by ebu's design). Listed findings: D11 (publish during SubscribeWithReplay), durable-streams resume offsets.", ref="DESIGN.md 5/C12, 4.5"),
 })
+
+CHECKS.update({
+ "C14": dict(technique="TLA+ spec Durable.tla (writers, commit vs acknowledge, kill at any instant, reopen) model-checked exhaustively; real SIGKILL histories of a child process on the SQLite store validated against DurableTrace.tla",
+   text="Durable.tla gives the legal post-crash states (every acknowledged event, at most the in-flight ones in addition, same order, idempotent open); the harness produces real process deaths - a child appends and saves offsets, reporting start/ack over a pipe, and is killed with SIGKILL after an arbitrary report - and validates each kill/reopen/append history (up to three generations per database) against the acceptor.",
+   note="Process death only, not power loss (WAL + synchronous=NORMAL promises the former); the sandbox's filesystem; one writer per child. Trusted: TLC, the pipe protocol (reports are written unbuffered before/after each call and drained after the kill).", ref="DESIGN.md 5/C14, 4.6"),
+})
 checks=[]
 for p in props:
     c=CHECKS.get(p['id'])
